@@ -477,7 +477,10 @@ fn apply_fault(root: &Path, id: &str, target: Target, kind: FaultKind, versions:
             let idx = n.saturating_sub(1 + k as usize);
             let was_present = present[idx].get(&target).copied().unwrap_or(false);
             match versions[idx].get(&target) {
-                Some(Some(bytes)) => std::fs::write(&p, bytes).unwrap(),
+                Some(Some(bytes)) => {
+                    let _ = std::fs::create_dir_all(p.parent().unwrap()); // the directory itself may have been lost
+                    std::fs::write(&p, bytes).unwrap()
+                }
                 _ => {
                     if !was_present {
                         let _ = std::fs::remove_file(&p);
@@ -1165,6 +1168,87 @@ fn coq_query_term(q: &Q, which: &str, a: &Abs, messages: &[String]) -> String {
     }
 }
 
+// ---------------------------------------------------------------- compile through the caches: Model/CacheCompile.v case
+const TAIL_WINDOWS: [u64; 6] = [256 << 10, 512 << 10, 1 << 20, 2 << 20, 4 << 20, 8 << 20];
+/// whole lines a backward scan of the last `w` bytes parses: a line counts when the byte before it lies inside the window too
+/// (the scan splits at the newline in front of it), or when the scan reaches the start of the file
+fn lines_in_window(lens: &[u64], w: u64) -> u64 {
+    let total: u64 = lens.iter().sum();
+    if w >= total {
+        return lens.len() as u64;
+    }
+    let mut cum = 0u64;
+    let mut k = 0u64;
+    for l in lens.iter().rev() {
+        if cum + l + 1 <= w {
+            cum += l;
+            k += 1;
+        } else {
+            break;
+        }
+    }
+    k
+}
+fn coq_cframe(a: &Abs, i: usize) -> String {
+    let e = &a.truth[i];
+    let body = match &e.kind {
+        EventKind::ContinuityMessageAppended { .. } => "BMsg".to_string(),
+        EventKind::ContinuityRunEnded { run_session_id, message_id, .. } => format!("(BRunEnded {} {})", a.run_ord[run_session_id], a.seq_of_event.get(message_id).copied().unwrap_or(999_999)),
+        EventKind::ContinuityCompactionCheckpointCreated { summary_kind, to_seq, .. } => format!("(BCkpt {} {} 0)", coq_bool(summary_kind == CUMULATIVE), to_seq),
+        _ => "BOther".to_string(),
+    };
+    format!("{{| fseq := {}; fb := {} |}}", e.seq, body)
+}
+fn coq_ixs(ls: &[(bool, u64)]) -> String {
+    coq_list(ls, |(g, x)| if *g { format!("Some {x}") } else { "None".to_string() })
+}
+/// None when the state is outside what the model claims to reproduce (see the call site) or the answer cannot be encoded
+fn cc_case_term(out: &Outcome, anchor_seq: u64, fast: &Ans) -> Option<String> {
+    let a = &out.abs;
+    // the file the tail scan reads: the mr sidecar as found, or the one ensure_* builds from a full sidecar that parses
+    let lens: Vec<u64> = match (&out.mr_lens, &out.full) {
+        (Some(l), _) => l.clone(),
+        (None, Some(fl)) if fl.iter().all(|(g, _)| *g) => fl
+            .iter()
+            .filter(|(_, s)| matches!(a.truth[*s as usize].kind, EventKind::ContinuityMessageAppended { .. } | EventKind::ContinuityRunEnded { .. }))
+            .map(|(_, s)| a.lens[*s as usize])
+            .collect(),
+        _ => vec![],
+    };
+    let budgets: Vec<u64> = TAIL_WINDOWS.iter().map(|w| lines_in_window(&lens, *w)).collect();
+    let expect: Vec<u64> = match fast {
+        Ans::Err(_) => vec![0],
+        Ans::Ok(v) => {
+            let mut o = vec![1, v["from_seq"].as_u64()?];
+            let items = v["bundle"]["items"].as_array()?;
+            o.push(items.iter().filter(|i| i["type"] == "summary_ref").count() as u64);
+            for i in items {
+                if i["type"] == "summary_ref" {
+                    continue;
+                }
+                // the harness's messages are "m<n> xxx.."; anything else in the bundle is not a user message of this thread
+                let n: Option<usize> = i["content"].as_str().and_then(|c| c.strip_prefix('m')).and_then(|c| c.split(' ').next()).and_then(|c| c.parse().ok());
+                match n.and_then(|n| out.messages.get(n.wrapping_sub(1))).and_then(|id| a.seq_of_event.get(id)) {
+                    Some(s) => o.push(*s),
+                    None => o.push(888_888),
+                }
+            }
+            o
+        }
+        _ => return None,
+    };
+    let frames = coq_list(&(0..a.truth.len()).collect::<Vec<_>>(), |i| coq_cframe(a, *i));
+    Some(format!(
+        "(let fr := {} in {{| cc_l := fr; cc_mrf := {}; cc_fullf := {}; cc_budgets := {}; cc_anchor := {}; cc_expect := {} |}})",
+        frames,
+        coq_opt(&out.mr, |ls| format!("(cc_lines fr {})", coq_ixs(ls))),
+        coq_opt(&out.full, |ls| format!("(cc_lines fr {})", coq_ixs(ls))),
+        coq_list(&budgets, |k| format!("{k}%nat")),
+        anchor_seq,
+        coq_list_n(&expect)
+    ))
+}
+
 // ---------------------------------------------------------------- generators
 fn gen_history(r: &mut Rng, n: u64, big: bool) -> Vec<Op> {
     let mut ops = vec![];
@@ -1578,6 +1662,8 @@ struct Outcome {
     abs: Abs,
     full: Option<Vec<(bool, u64)>>,
     comp: Option<Vec<(bool, u64)>>,
+    mr: Option<Vec<(bool, u64)>>,
+    mr_lens: Option<Vec<u64>>, // byte length of every line of the mr sidecar as found
     ord_term: String, // Model/Cache.v `ofile` of the ordinal index at query time
     coh: Coherence,
     messages: Vec<String>,
@@ -1593,6 +1679,8 @@ fn run_case(case: &Case) -> Outcome {
     let abs = abstract_truth(&root, &b.id);
     let full = abstract_full(&root, &b.id, &abs);
     let comp = abstract_jsonl(&root, &b.id, &abs, Target::Comp);
+    let mr = abstract_jsonl(&root, &b.id, &abs, Target::Mr);
+    let mr_lens = std::fs::read(target_path(&root, &b.id, Target::Mr)).ok().map(|raw| raw.split_inclusive(|c| *c == b'\n').map(|l| l.len() as u64).collect::<Vec<_>>());
     let ord_term = coq_ofile(&std::fs::read(target_path(&root, &b.id, Target::Ord)).ok(), &truth_lines(&root, &b.id));
     let coh = coherence(&root, &b.id, &abs);
     let secs = if case.long { 120 } else { 90 };
@@ -1623,7 +1711,7 @@ fn run_case(case: &Case) -> Outcome {
         hung = fast == Ans::Hang || truth == Ans::Hang;
         results.push((q.clone(), fast, truth));
     }
-    Outcome { results, abs, full, comp, ord_term, coh, messages: b.messages.clone(), op_errors: b.op_errors, writer_checks: b.writer_checks, writer_violations: b.writer_violations.clone(), ord_steps: b.ord_steps.clone(), prov: b.prov.clone() }
+    Outcome { results, abs, full, comp, mr, mr_lens, ord_term, coh, messages: b.messages.clone(), op_errors: b.op_errors, writer_checks: b.writer_checks, writer_violations: b.writer_violations.clone(), ord_steps: b.ord_steps.clone(), prov: b.prov.clone() }
 }
 
 fn case_json(c: &Case) -> Value {
@@ -1737,6 +1825,10 @@ fn main() {
 
     let k_term = "{| k_loops := gen_loops; k_max_keys := gen_cursor_max_keys; k_inflight_events := gen_inflight_events; k_inflight_bytes := gen_inflight_bytes; k_ckpt_events := gen_ckpt_events; k_ckpt_bytes := gen_ckpt_bytes |}";
     let mut w = CaseWriter::new(&a.out, "Model.TailLoop Model.Cache Gen.TailLoops", &format!("(check_case {k_term})"), &format!("(model_obs {k_term})"), 60);
+    // compile through the caches as found vs. Model/CacheCompile.v (loader with its failure legs + Model/Compile.v's compiler),
+    // with the acceptance count / limits / visibility rule read from the source (Gen/CompileConsts.v)
+    let cc_fn = |f: &str| format!("({f} gen_tail_count gen_recent_limit gen_max_refs gen_ckpt_frame_rule)");
+    let mut wc = CaseWriter::new(&a.out.join("cc"), "Model.Compile Model.CacheCompile Gen.CompileConsts", &cc_fn("cc_check_case"), &cc_fn("cc_model_obs"), 25).with_base(1_000_000);
     let mut distinct = Distinct::default();
     let mut seen_classes: BTreeMap<String, u64> = BTreeMap::new();
 
@@ -1841,6 +1933,24 @@ fn main() {
                     }
                 }
             }
+            // ---- compile through the caches: the loader model.  Claimed for states where the full sidecar and the checkpoint
+            // caches are what a rebuild writes (the model's checkpoint source is the projection, its seek window is absent)
+            // and the mr sidecar is exact, absent, empty or damaged (unparsable lines) — not for K2m / K1 states
+            if let (Q::Compile { msg }, false, true, true) = (q, a.oracle_only(), out.coh.truth_valid, out.abs.truth.len() <= 200 && wc.total < 1_000_000 + if a.thorough() { 3000 } else { 400 }) {
+                let ck_ok = |s: FileState| matches!(s, FileState::Exact | FileState::Absent);
+                let claimed = out.coh.full == FileState::Exact && ck_ok(out.coh.comp) && ck_ok(out.coh.compidx) && matches!(out.coh.mr, FileState::Exact | FileState::Absent | FileState::Malformed | FileState::Empty);
+                let anchor = if out.messages.is_empty() { None } else { Some(if *msg == u64::MAX { out.messages.last().unwrap().clone() } else { out.messages[(*msg as usize) % out.messages.len()].clone() }) };
+                if let (true, Some(seq)) = (claimed, anchor.and_then(|m| out.abs.seq_of_event.get(&m).copied())) {
+                    if let Some(term) = cc_case_term(&out, seq, fast) {
+                        let id = wc.push(term);
+                        flagged_case_ids.push(id);
+                        res.bump(&format!("compile_cases_through_loader_model:mr={:?}", out.coh.mr));
+                        if res.case_index.len() < 3000 {
+                            res.case_index.insert(id.to_string(), json!({"case": case_json(&Case { ops: case.ops.clone(), queries: vec![q.clone()], long: case.long }), "query": q, "part": "compile loader"}));
+                        }
+                    }
+                }
+            }
             // ---- independent oracle: the call returned, and fast == truth
             let bad = match (fast, truth) {
                 (Ans::Hang, _) | (Ans::Panic, _) | (_, Ans::Hang) | (_, Ans::Panic) => true,
@@ -1872,11 +1982,12 @@ fn main() {
         }
     }
     w.flush();
+    wc.flush();
     for (c, n) in &seen_classes {
         res.bump_by(&format!("violation:{c}"), *n);
     }
     res.distinct_nontrivial = distinct.count();
-    res.case_files = w.files.iter().map(|p| p.display().to_string()).collect();
+    res.case_files = w.files.iter().chain(wc.files.iter()).map(|p| p.display().to_string()).collect();
     res.write(&a.out);
     println!("c04: {} histories, {} query evaluations, {} oracle violations {:?}", res.evaluations, res.oracle_checks, res.oracle_violations.len(), seen_classes);
     // leaked watchdog threads must not keep the process alive
